@@ -553,7 +553,9 @@ NOT_COVERED = {
     "C08": ["marshmallow schema load/dump through JSON (io/models.py not importable)"],
     "C11": ["parse-back leg (io/gff3/parser.py: gffutils objects), FASTA section"],
     "C12": ["not claimed"],
-    "C17": ["partial / pseudo flags and locus-tag stepping symbolically (bounded tier with an independent reader only)"],
+    "C17": ["partial / pseudo flags, feature kinds and locus-tag stepping for SYMBOLIC coordinates and sequences (decided on "
+            "complete small domains executed in the verifier; random id strings are stubbed, reproducibility for a fixed "
+            "seed is checked natively in the bounded tier)"],
 }
 
 
